@@ -238,6 +238,9 @@ func registerStd(e *Engine) {
 	})
 
 	// --- runtime bits
+	e.reg("runtime.Callers", func(fr *frame, args []value) value { return int64(0) })
+	e.reg("runtime.Caller", func(fr *frame, args []value) value { return tuple{uint64(0), "", int64(0), false} })
+	e.reg("runtime.FuncForPC", func(fr *frame, args []value) value { return (*value)(nil) })
 	e.reg("runtime.KeepAlive", nop)
 	e.reg("runtime.SetFinalizer", nop)
 	e.reg("runtime.GC", nop)
